@@ -224,7 +224,7 @@ theorem ChildOK.mono {c c' : Bool} (h : c' = true → c = true) {g : S} {ch : Ch
   ⟨hc.mem, hc.app, hc.hash, hc.eok.mono h, hc.live⟩
 
 /-- every accepted generated move of `g` has a child, or generation stopped at a child that settles `g` -/
-def Cover (g : S) (cs : List (Child S M)) : Prop :=
+def DCover (g : S) (cs : List (Child S M)) : Prop :=
   (∀ m ∈ G.moves g, ∀ s', G.apply g m = some s' → ∃ c ∈ cs, c.move = m) ∨
   (∃ c ∈ cs, c.data.bounds.delta = 0)
 
@@ -239,7 +239,7 @@ theorem toMove_child (alt : Alternating G) (ha : att = .white ∨ att = .black) 
 /-- **`computePNs` is sound**: the numbers of a node computed from sound children that cover its moves -/
 theorem computePNs_eok (alt : Alternating G) (ha : att = .white ∨ att = .black) (clean : Bool) {g : S}
     (ho : G.over g = none) (cs : List (Child S M))
-    (hcs : ∀ c ∈ cs, ChildOK (G := G) (hash := hash) (att := att) clean g c) (hcov : Cover (G := G) g cs) :
+    (hcs : ∀ c ∈ cs, ChildOK (G := G) (hash := hash) (att := att) clean g c) (hcov : DCover (G := G) g cs) :
     EOK G att clean g (computePNs cs) := by
   have hphi : ∀ c ∈ cs, c.data.bounds.phi.toNat ≤ 2 ^ 30 := fun c hc => (hcs c hc).eok.1.1
   obtain ⟨_, hge, hdz⟩ := computePNs_delta cs hphi
